@@ -15,7 +15,9 @@ spec/Discovery.tla.  Binding (real frappy.protocol.discovery.UDPListener on a Fa
                  shutdown(), real TCPServer/WSServer constructors) on a fake bind layer with the real UDPListener
                  thread on a threaded fake socket; a broadcast request after every operation shows who answers.
                  The responder thread can be held before its first statement / inside its first sendto, so that
-                 restart and shutdown are also issued before it has run (two-step start in the spec).
+                 restart and shutdown are also issued before it has run (two-step start in the spec).  Restart and
+                 shutdown are torn down step by step (responder stop, one interface at a time) with a request
+                 injected after every step: an answer never names a port that is already closed.
   code -> spec : seeded random descriptions (mixed scripts, escapes, lengths around the limit, real 508) and
                  random datagram byte strings are executed, recorded and validated by Trace_Discovery (TLC),
                  which names the failing clause.
@@ -716,12 +718,24 @@ def execute_server(case):
                 getattr(w, op)(hold)
             else:
                 getattr(w, op)()
-            new = [m for s_ in w.sockets for m in s_.sent[seen.get(id(s_), 0):]]      # sent by (re)started / released threads
+            okt = True
+            for st in (w.steps if op in ('restart', 'shutdown') else []):       # the tear-down, step by step
+                answers, ok2 = project([(raw, dest) for _, raw, dest in st['msgs']], True)
+                okt = okt and ok2
+                te = {'ev': st['kind'], 'listening': sorted(idx(p) for p in st['listening']), 'announce': [],
+                      'probed': st['probed'], 'answers': answers, 'ok': ok2, 'error': ''}
+                if st['kind'] == 'close_iface':
+                    te['i'] = idx(st['port'])
+                trace.append(te)
+            if op == 'run':         # sent by the released threads
+                new = [m for s_ in w.sockets for m in s_.sent[seen.get(id(s_), 0):]]
+            else:                   # announcements of the responder started by this operation
+                new = [m for s_ in w.sockets if id(s_) not in seen for m in s_.sent]
             announce, ok1 = project(new, False)
             probed = not w.pending()
             answers, ok2 = project([(raw, dest) for _, raw, dest in w.probe(sender)], True) if probed else ([], True)
             ev = {'ev': op, 'listening': sorted(idx(p) for p in w.listening), 'announce': announce, 'probed': probed,
-                  'answers': answers, 'ok': ok1 and ok2, 'error': w.error, 'responders': w.running_responders()}
+                  'answers': answers, 'ok': ok1 and ok2 and okt, 'error': w.error, 'responders': w.running_responders()}
             if op == 'boot':
                 ev['cfg'] = list(case['schemes'])
             if op in ('boot', 'restart'):
@@ -752,25 +766,37 @@ def _replay_server(item):
     holds = ['' if not s['held'] else
              'send' if (seed + idx + n) % 2 and any(schemes[i - 1] == 'tcp' for i in s['up']) else 'start'
              for n, s in enumerate(starts)]
-    case = server_case(schemes, [s['up'] for s in starts], [s['act'] for s in steps[1:]], seed + idx, holds)
+    case = server_case(schemes, [s['up'] for s in starts],
+                       [s['act'] for s in steps[1:] if s['act'] in ('restart', 'shutdown', 'run')], seed + idx, holds)
     tr = execute_server(case)
+    # the behaviour and the execution as comparable items: an operation with the probe that follows it; the steps of
+    # one tear-down as a set (their order and the answers in between are judged by TLC, not compared)
+    TEAR = ('stop_responder', 'close_iface')
+
+    def items(seq, name, lis, probe):
+        out = []
+        for e in seq:
+            if e[name] == 'probe':
+                if 'teardown' not in out[-1]:
+                    out[-1]['answers'] = sorted(e['exp']['answers'])
+            elif e[name] in TEAR:
+                if not (out and 'teardown' in out[-1]):
+                    out.append({'teardown': []})
+                out[-1]['teardown'] = sorted(out[-1]['teardown'] + [[e[name], e.get('i', 0)]])
+            else:
+                it = {'ev': e[name], 'listening': sorted(lis(e)), 'held': e.get('held', False)}
+                if probe(e) is not None:
+                    it['answers'] = probe(e)
+                out.append(it)
+        return out
+
+    exp = items(beh, 'act', lambda e: e['exp']['listening'], lambda e: None)
+    clean = all(e['ok'] and not e['error'] for e in tr)
+    got = items(tr, 'ev', lambda e: e['listening'], lambda e: sorted(e['answers']) if e['probed'] else None)
     diff = None
-    k = -1
-    for i, st in enumerate(beh):        # a probe step of the behaviour is the probe part of the preceding event
-        if st['act'] != 'probe':
-            k += 1
-        ev = tr[k] if k < len(tr) else {}
-        if st['act'] == 'probe':
-            got = {'probed': ev.get('probed'), 'answers': sorted(ev.get('answers', [[-1, -1]]))}
-            exp = {'probed': True, 'answers': sorted(st['exp']['answers'])}
-        else:
-            got = {'ev': ev.get('ev'), 'listening': ev.get('listening'), 'held': ev.get('held', False),
-                   'clean': bool(ev.get('ok')) and not ev.get('error')}
-            exp = {'ev': st['act'], 'listening': sorted(st['exp']['listening']), 'held': st.get('held', False),
-                   'clean': True}
-        if got != exp:
-            diff = {'step': i + 1, 'expected': exp, 'observed': got}
-            break
+    if got != exp or not clean:
+        n = next((k for k, (a, b) in enumerate(zip(got, exp)) if a != b), min(len(got), len(exp)))
+        diff = {'step': n + 1, 'expected': exp[n:n + 1], 'observed': got[n:n + 1], 'clean': clean}
     return case, tr, diff
 
 
@@ -1038,7 +1064,7 @@ def run(chk):
     devs += [(dev, inv, ex.submit(run_tlc, 'DiscoveryServer', 'MC_DiscoveryServer_asimpl_%s.cfg' % dev, timeout=300,
                                   workers=1))
              for dev, inv in (('restart', 'OneResponder'), ('ports', 'AnswersTrue'), ('sticky', 'AnswersTrue'),
-                              ('guarded', 'OneResponder'))]
+                              ('guarded', 'OneResponder'), ('order', 'AnswersTrue'))]
     gen_srv = ex.submit(emit_behaviours, 'Gen_DiscoveryServer', 'Gen_DiscoveryServer_quick.cfg' if quick else
                         'Gen_DiscoveryServer_thorough.cfg', maximal_only=False, timeout=300)
     cfg = 'Gen_Discovery_build_quick.cfg' if quick else 'Gen_Discovery_build_thorough.cfg'
